@@ -104,47 +104,63 @@ def run(eng, R):
                 R.ob("S-dim", "%s:%s" % (f.qualname, " ".join(ast.unparse(c).split())[:50]), dim == want_dim, (f.file, c.lineno),
                      "%s constructs a %s-dimensional ConfidenceLevel in a %s context" % (f.qualname, dim, "contour (two parameters)" if is_contour else "profile / interval (one parameter)"))
 
-    # ---- one-sided vs central conversion in the arrow computation
+    # ---- one-sided vs central conversion in the arrow computation: path-sensitive evaluation over the None-ness of (low, high, cl) and arrows
+    from ..pathval import NONE, NOTNONE, Evaluator
+
+    MB = p.find_class("MinimizerBase")
     ga = get_func(p, "MinimizerBase", "_get_arrow_specs")
-    n_branches = 0
-    for loop in [n for n in ast.walk(ga.node) if isinstance(n, ast.For) and isinstance(n.iter, ast.Name) and n.iter.id == "cl"]:
-        tv = loop.target.id if isinstance(loop.target, ast.Name) else None
-        outer = common.guard_conditions(ga.node, loop)
-        side = "left" if any("low is None" in ast.unparse(t) and pol for t, pol in outer) else "right"
-        for conds, env, app in _paths_to_append(loop.body, {}, []):
-            n_branches += 1
-            d = app.args[0]
-            if not isinstance(d, ast.Dict):
-                raise AnalysisError("_get_arrow_specs: arrow spec is not a dict literal")
-            items = {common.const_str(k): v for k, v in zip(d.keys, d.values)}
-            N = Normalizer(env)
-            tail = N.norm(items["cl"]).canon()
-            # the sigma used: ConfidenceLevel(cl=X).sigma after inlining
-            sig_calls = [c for c in ast.walk(subst(items["y"], env)) if isinstance(c, ast.Call) and isinstance(c.func, ast.Name) and c.func.id == "ConfidenceLevel"]
-            if not sig_calls:
-                raise AnalysisError("_get_arrow_specs: sigma of an arrow is not derived from a ConfidenceLevel in the same function (vocabulary changed)")
-            clarg = next((k.value for k in sig_calls[0].keywords if k.arg == "cl"), None)
-            conv = Normalizer().norm(clarg).canon() if clarg is not None else "?"
-            central = tail == norm_spec("(1 - %s) / 2" % tv).canon() and conv == tv
-            onesided = tail == norm_spec("1 - %s" % tv).canon() and conv == norm_spec("2 * %s - 1" % tv).canon()
-            ctxt = " and ".join(("" if pol else "not ") + ast.unparse(t) for t, pol in conds)
-            # which case is required? the other bound given <=> one-sided
-            other_given = any(("high is None" in ast.unparse(t) or "low is None" in ast.unparse(t)) and not pol for t, pol in conds)
-            ok = onesided if other_given else central
-            R.ob("S-side", "_get_arrow_specs:%s:%s" % (side, "one-sided" if other_given else "central"), ok, (ga.file, app.lineno),
-                 "arrow on the %s side, branch [%s]: displayed tail probability %s with sigma converted from cl=%s - expected %s" % (
-                     side, ctxt, tail, conv, "tail 1-cl and sigma(2cl-1) (one-sided bound)" if other_given else "tail (1-cl)/2 and sigma(cl) (central interval)"))
-            # cost target and arrow height
-            y = N.norm(items["y"]).canon()
-            tgt_call = [c for c in ast.walk(items["x"]) if isinstance(c, ast.Call) and isinstance(c.func, ast.Attribute) and c.func.attr == "_find_cost_cut"]
-            tc = next((k.value for c in tgt_call for k in c.keywords if k.arg == "target_cost"), None)
-            tnorm = N.norm(tc).canon() if tc is not None else "?"
-            sig = Normalizer().norm(ast.parse("ConfidenceLevel(cl=%s).sigma" % ast.unparse(clarg), mode="eval").body).canon() if clarg is not None else "?"  # clarg is already inlined
-            want_t = "min_cost + %s^2" % sig
-            R.ob("S-side", "_get_arrow_specs:%s:%s:target" % (side, "one-sided" if other_given else "central"), _same_sum(tnorm, want_t), (ga.file, app.lineno),
-                 "the arrow position is searched at cost %s, expected minimum + sigma^2 (%s)" % (tnorm, want_t))
-    if n_branches < 4:
-        raise AnalysisError("_get_arrow_specs: expected 4 confidence-level branches (left/right x central/one-sided), found %d" % n_branches)
+    helpers = {name for name, m in MB.all_methods().items() if hasattr(m, "node") and name != "_get_arrow_specs" and "ConfidenceLevel" in ast.unparse(m.node) and len(m.node.body) <= 8}
+    results = {}  # (side, case, what) -> [ok, message of the first failure, where]
+    n_events = 0
+    for low0 in (NONE, NOTNONE):
+        for high0 in (NONE, NOTNONE):
+            for cl0 in (NONE, NOTNONE):
+                for arrows0 in (True, False):
+                    ev = Evaluator(MB, event_calls={"append"}, inline=helpers)
+                    ev.run(ga.node, {"low": low0, "high": high0, "cl": cl0, "arrows": arrows0})
+                    state_txt = "low %s, high %s, cl %s, arrows=%s" % ("given" if low0 == NOTNONE else "None", "given" if high0 == NOTNONE else "None", "given" if cl0 == NOTNONE else "None", arrows0)
+                    for call, facts, env, trail in ev.events:
+                        loops = [t for t, pol in trail if isinstance(t, ast.For) and isinstance(t.iter, ast.Name) and t.iter.id == "cl"]
+                        if not loops or not (isinstance(call.func.value, ast.Name) and "arrow" in call.func.value.id) or not call.args or not isinstance(call.args[0], ast.Dict):
+                            continue
+                        tv = loops[-1].target.id
+                        d = call.args[0]
+                        items = {common.const_str(k): v for k, v in zip(d.keys, d.values)}
+                        side = common.const_str(items.get("side"))
+                        if side not in ("left", "right") or "cl" not in items or "y" not in items:
+                            raise AnalysisError("_get_arrow_specs: arrow spec without side / cl / y")
+                        n_events += 1
+                        other_given = (high0 if side == "left" else low0) == NOTNONE
+                        case = "one-sided" if other_given else "central"
+                        tail = Normalizer().norm(ev.close(items["cl"], facts, env)).canon()
+                        yexp = ev.close(items["y"], facts, env)
+                        sig_calls = [c for c in ast.walk(yexp) if isinstance(c, ast.Call) and isinstance(c.func, ast.Name) and c.func.id == "ConfidenceLevel"]
+                        if not sig_calls:
+                            raise AnalysisError("_get_arrow_specs: sigma of an arrow is not derived from a ConfidenceLevel (directly or through a helper of MinimizerBase)")
+                        clarg = next((k.value for k in sig_calls[0].keywords if k.arg == "cl"), None)
+                        conv = Normalizer().norm(clarg).canon() if clarg is not None else "?"
+                        central = tail == norm_spec("(1 - %s) / 2" % tv).canon() and conv == tv
+                        onesided = tail == norm_spec("1 - %s" % tv).canon() and conv == norm_spec("2 * %s - 1" % tv).canon()
+                        ok = onesided if other_given else central
+                        r = results.setdefault((side, case, "conversion"), [True, "", call.lineno])
+                        if not ok and r[0]:
+                            r[0] = False
+                            r[1] = "arrow on the %s side [%s]: displayed tail probability %s with sigma converted from cl=%s - expected %s" % (
+                                side, state_txt, tail, conv, "tail 1-cl and sigma(2cl-1) (one-sided bound)" if other_given else "tail (1-cl)/2 and sigma(cl) (central interval)")
+                        tgt_call = [c for c in ast.walk(items["x"]) if isinstance(c, ast.Call) and isinstance(c.func, ast.Attribute) and c.func.attr == "_find_cost_cut"] if "x" in items else []
+                        tc = next((k.value for c in tgt_call for k in c.keywords if k.arg == "target_cost"), None)
+                        tnorm = Normalizer().norm(ev.close(tc, facts, env)).canon() if tc is not None else "?"
+                        sig = Normalizer().norm(ast.parse("ConfidenceLevel(cl=%s).sigma" % ast.unparse(clarg), mode="eval").body).canon() if clarg is not None else "?"
+                        want_t = "min_cost + %s^2" % sig
+                        r = results.setdefault((side, case, "target"), [True, "", call.lineno])
+                        if not _same_sum(tnorm, want_t) and r[0]:
+                            r[0] = False
+                            r[1] = "[%s] the arrow position is searched at cost %s, expected minimum + sigma^2 (%s)" % (state_txt, tnorm, want_t)
+    for (side, case, what), (ok, msg, line) in sorted(results.items()):
+        R.ob("S-side", "_get_arrow_specs:%s:%s%s" % (side, case, "" if what == "conversion" else ":target"), ok, (ga.file, line),
+             msg or "%s arrow, %s: tail probability and converted level agree" % (side, case))
+    if len(results) < 8:
+        raise AnalysisError("_get_arrow_specs: expected left/right x central/one-sided arrows from confidence levels, found %s" % sorted(results))
 
     # ---- F1 along the profile / contour call chain
     pairs = []
